@@ -4,6 +4,8 @@ import StarsimModel.Model.ParsRefs
 import StarsimModel.Generated.ParsRefs
 import StarsimModel.Model.ParsSim
 import StarsimModel.Generated.ParsSimLevel
+import StarsimModel.Model.ParsTime
+import StarsimModel.Generated.ParsTimePar
 import StarsimModel.Model.Proto
 open StarsimModel StarsimModel.Pars StarsimModel.Proto StarsimModel.ParsRefs StarsimModel.ParsSim
 
@@ -194,8 +196,42 @@ def showDMod : DMod → String
 def showOut (o : Out) : String :=
   showList showDMod o.mods ++ " " ++ (match o.aging with | some b => showBool b | none => "-")
 
+/-- round 5: time-parameter fields.  Unit tokens: `-` = None, anything else = the (rendered) value -/
+def parseUVal (s : String) : Option String := if s = "-" then none else some s
+def parseOptI? (s : String) : Option (Option Int) := if s = "-" then some none else s.toInt?.map some
+def showUVal : Option String → String
+  | none => "-" | some s => s
+def showOptI : Option Int → String
+  | none => "-" | some i => toString i
+def showTErr : StarsimModel.ParsTime.Err → String
+  | .value => "E:Value" | .keyNotFound => "E:KeyNotFound" | .type => "E:Type"
+def showTP (t : StarsimModel.ParsTime.TP) : String :=
+  s!"ok {t.v} {showUVal t.unit} {showUVal t.parentUnit} {showOptI t.parentDt} {showOptI t.selfDt}"
+def tpEnv : StarsimModel.ParsTime.Env := ⟨Gen.unitTable, Gen.timeUnitNames, Gen.tpValidated⟩
+def parseTArgs? (v u pu pd sd f : String) : Option StarsimModel.ParsTime.Args := do
+  let v ← parseOptI? v
+  let pd ← parseOptI? pd
+  let sd ← parseOptI? sd
+  let f ← parseBool? f
+  some { v := v, unit := parseUVal u, parentUnit := parseUVal pu, parentDt := pd, selfDt := sd, force := f }
+def showTRes : Except StarsimModel.ParsTime.Err StarsimModel.ParsTime.TP → String
+  | .ok t => showTP t | .error e => showTErr e
+
 def stepLine (d : RegData) (line : String) : RegData × String :=
   match words line with
+  | ["tpset", ini, ov, ou, opu, opd, osd, "|", v, u, pu, pd, sd, f] => (d,
+      match parseBool? ini, ov.toInt?, parseOptI? opd, parseOptI? osd, parseTArgs? v u pu pd sd f with
+      | some ini, some ov, some opd, some osd, some a =>
+          showTRes (StarsimModel.ParsTime.tpSet Gen.tpSetSteps tpEnv ⟨ov, parseUVal ou, parseUVal opu, opd, osd, ini⟩ a)
+      | _, _, _, _, _ => "bad-op")
+  | ["tpctor", v, u, pu, pd, sd] => (d,
+      match parseTArgs? v u pu pd sd "0" with
+      | some a => showTRes (StarsimModel.ParsTime.tpCtor Gen.tpCtorSteps tpEnv a)
+      | none => "bad-op")
+  | ["unitlookup", u] => (d,
+      match StarsimModel.ParsTime.lookup Gen.unitTable (parseUVal u) with
+      | some c => "ok " ++ showUVal c
+      | none => "E:Key")
   | ["demog", dm, b, dth, ag] => (d, match parseDIn? dm, parseOptNat? b, parseOptNat? dth with
       | some dm, some b, some dth =>
           let ag : Option (Option Bool) := if ag = "-" then some none else (parseBool? ag).map some
